@@ -74,7 +74,7 @@ Section Run.
      request of the same process: a different request with the same memo key, or
      the same URL with another checksum (what fix 9459281 closed) *)
   Definition mechanism (seen : list handle) (h : handle) : string :=
-    if existsb (fun p => String.eqb (memo_key p) (memo_key h) && negb (same_req p h)) seen
+    if existsb (fun p => String.eqb (h_url p ++ "@" ++ h_chk p) (h_url h ++ "@" ++ h_chk h) && negb (same_req p h)) seen
     then "/memo-key-ambiguous"
     else if existsb (fun p => String.eqb (h_url p) (h_url h) && negb (same_req p h)) seen
     then "/process-memo-by-url" else "".
